@@ -1,28 +1,27 @@
 /-
-Tier F (FIFO delivery), part B: preservation of `InvFifo` (and of the auxiliary `InvFifoX`) by every
-base step, relative to the full base invariant `InvAll`.
+Tier L (liveness bookkeeping, ANY event order), part B: preservation of `InvLive` (and of the auxiliary `InvLiveX`) by
+every base step, relative to the full base invariant `InvAll` (whose Tier P says how completion is detected).
 -/
-import EkwVerif.Lemmas.SchedFifoA
+import EkwVerif.Lemmas.SchedLiveA
 
 namespace EkwVerif.Ctrl
 
 /-! ### congruence -/
 
-theorem sF_po_congr {s s' : Sys} (h1 : s'.inbox = s.inbox) (h2 : s'.env.pending = s.env.pending) :
-    ∀ t, pendingOuts s' t = pendingOuts s t := by
-  intro t; rw [sF_po, sF_po, h1, h2]
-
-/-- a step that changes none of the fields Tier F talks about -/
-theorem sF_congr {j : Job} {cl : Cluster} {s s' : Sys} (hF : InvFifo j cl s)
-    (hran : s'.env.ran = s.env.ran) (hpo : ∀ t, pendingOuts s' t = pendingOuts s t)
+/-- a step that changes none of the fields Tier L talks about (worker notices on their way may only be added) -/
+theorem sL_congr {j : Job} {cl : Cluster} {s s' : Sys} (hF : InvLive j cl s)
+    (hran : s'.env.ran = s.env.ran) (hev : ∀ w ds, Event.pubW w ds ∈ s.allEv → Event.pubW w ds ∈ s'.allEv)
+    (hpub : s'.ctl.published = s.ctl.published)
     (hann : s'.ctl.announced = s.ctl.announced) (hdone : s'.ctl.doneC = s.ctl.doneC)
     (hdisp : s'.ctl.dispatched = s.ctl.dispatched) (hcomp : s'.ctl.computable = s.ctl.computable)
     (htracked : s'.ctl.tracked = s.ctl.tracked) (htracker : s'.ctl.tracker = s.ctl.tracker)
     (hidle : s'.ctl.idle = s.ctl.idle) (hfl : ∀ w t, s'.inFlight w t ↔ s.inFlight w t) :
-    InvFifo j cl s' := by
-  refine ⟨?_, ?_, ?_, ?_, ?_, ?_⟩
-  · intro t ht; rw [hran] at ht; rw [hpo, hann]; exact hF.suffix t ht
-  · intro t ht; rw [hdone] at ht; rw [hann]; exact hF.done_announced t ht
+    InvLive j cl s' := by
+  refine ⟨?_, ?_, ?_, ?_, ?_⟩
+  · intro t ht k hk; rw [hran] at ht; rw [hpub]
+    rcases hF.notice t ht k hk with h | ⟨w, h⟩
+    · exact Or.inl h
+    · exact Or.inr ⟨w, hev _ _ h⟩
   · intro t ht; rw [hdisp] at ht; rw [hdone]
     rcases hF.disp_flight_or_done t ht with ⟨w, hw⟩ | hd
     · exact Or.inl ⟨w, (hfl w t).mpr hw⟩
@@ -34,26 +33,15 @@ theorem sF_congr {j : Job} {cl : Cluster} {s s' : Sys} (hF : InvFifo j cl s)
     · exact Or.inl (by rw [hidle]; exact h)
     · exact Or.inr ⟨t, (hfl w t).mpr ht⟩
 
-theorem sF_po_nil {j : Job} {cl : Cluster} {s : Sys} (h2 : Inv2 j cl s) (t : Task) (hnr : s.env.ran t = false) :
-    pendingOuts s t = [] := by
-  have key : ∀ ev, ev ∈ s.allEv → sF_sel t ev = none := by
-    intro ev hev
-    cases ev with
-    | pubW w ds =>
-      have := (h2.ev_ran w ds hev).1
-      have hne : ds.task ≠ t := by intro h; rw [h, hnr] at this; cases this
-      exact sF_sel_pubW_other t w ds hne
-    | pubT h ds => rfl
-    | payload ds v => rfl
-  rw [sF_po, ← List.filterMap_append, List.filterMap_eq_nil_iff]
-  exact key
+theorem sL_allEv_congr {s s' : Sys} (h1 : s'.inbox = s.inbox) (h2 : s'.env.pending = s.env.pending) :
+    ∀ w ds, Event.pubW w ds ∈ s.allEv → Event.pubW w ds ∈ s'.allEv := by
+  intro w ds h; simpa [Sys.allEv, h1, h2] using h
 
 /-! ### init -/
 
-theorem sF_init (j : Job) (cl : Cluster) (_wf : WF j cl) : InvFifo j cl (Sys.init j cl) := by
-  refine ⟨?_, ?_, ?_, ?_, ?_, ?_⟩
+theorem sL_init (j : Job) (cl : Cluster) (_wf : WF j cl) : InvLive j cl (Sys.init j cl) := by
+  refine ⟨?_, ?_, ?_, ?_, ?_⟩
   · intro t ht; simp [Sys.init, Env.init] at ht
-  · intro t ht; simp [Sys.init, initCtl] at ht
   · intro t ht; simp [Sys.init, initCtl] at ht
   · intro t htl _
     simp only [Sys.init, initCtl, List.mem_filter, Job.taskIds, List.mem_range, decide_eq_true_eq]
@@ -65,64 +53,64 @@ theorem sF_init (j : Job) (cl : Cluster) (_wf : WF j cl) : InvFifo j cl (Sys.ini
     exact ⟨hd, trivial⟩
   · intro w hw; left; simpa [Sys.init, initCtl] using hw
 
-theorem sF_x_init (j : Job) (cl : Cluster) (wf : WF j cl) : InvFifoX (Sys.init j cl) :=
+theorem sL_x_init (j : Job) (cl : Cluster) (wf : WF j cl) : InvLiveX (Sys.init j cl) :=
   ⟨fun t => by simpa [Sys.init, initCtl] using wf.inputsNodup t⟩
 
 /-! ### the phase-only steps -/
 
-theorem sF_step_enter (f : Sem) (j : Job) (cl : Cluster) (s s' : Sys) (hA : InvAll f j cl s) (hF : InvFifo j cl s)
-    (hs : step f j cl s .enter = some s') : InvFifo j cl s' := by
+theorem sL_step_enter (f : Sem) (j : Job) (cl : Cluster) (s s' : Sys) (hA : InvAll f j cl s) (hF : InvLive j cl s)
+    (hs : step f j cl s .enter = some s') : InvLive j cl s' := by
   simp only [step] at hs
   split at hs; · cases hs
   rename_i hp
   have hp' : s.phase = .top := by simpa using hp
   have htodo : s.todo = [] := hA.h1.todo_phase (by simp [hp']) (by simp [hp']) (by simp [hp'])
   split at hs
-  · cases hs; exact sF_congr hF rfl (fun _ => rfl) rfl rfl rfl rfl rfl rfl rfl (fun _ _ => Iff.rfl)
+  · cases hs; exact sL_congr hF rfl (fun _ _ h => h) rfl rfl rfl rfl rfl rfl rfl rfl (fun _ _ => Iff.rfl)
   · cases hs
-    exact sF_congr hF rfl (fun _ => rfl) rfl rfl rfl rfl rfl rfl rfl
+    exact sL_congr hF rfl (fun _ _ h => h) rfl rfl rfl rfl rfl rfl rfl rfl
       (fun w t => by simp [Sys.inFlight, Sys.todoPairs, htodo])
 
-theorem sF_step_endAssign (f : Sem) (j : Job) (cl : Cluster) (s s' : Sys) (hF : InvFifo j cl s)
-    (hs : step f j cl s .endAssign = some s') : InvFifo j cl s' := by
+theorem sL_step_endAssign (f : Sem) (j : Job) (cl : Cluster) (s s' : Sys) (hF : InvLive j cl s)
+    (hs : step f j cl s .endAssign = some s') : InvLive j cl s' := by
   simp only [step] at hs
   split at hs; · cases hs
-  cases hs; exact sF_congr hF rfl (fun _ => rfl) rfl rfl rfl rfl rfl rfl rfl (fun _ _ => Iff.rfl)
+  cases hs; exact sL_congr hF rfl (fun _ _ h => h) rfl rfl rfl rfl rfl rfl rfl rfl (fun _ _ => Iff.rfl)
 
-theorem sF_step_endPlan (f : Sem) (j : Job) (cl : Cluster) (s s' : Sys) (hF : InvFifo j cl s)
-    (hs : step f j cl s .endPlan = some s') : InvFifo j cl s' := by
+theorem sL_step_endPlan (f : Sem) (j : Job) (cl : Cluster) (s s' : Sys) (hF : InvLive j cl s)
+    (hs : step f j cl s .endPlan = some s') : InvLive j cl s' := by
   simp only [step] at hs
   split at hs; · cases hs
-  cases hs; exact sF_congr hF rfl (fun _ => rfl) rfl rfl rfl rfl rfl rfl rfl (fun _ _ => Iff.rfl)
+  cases hs; exact sL_congr hF rfl (fun _ _ h => h) rfl rfl rfl rfl rfl rfl rfl rfl (fun _ _ => Iff.rfl)
 
-theorem sF_step_endFlushF (f : Sem) (j : Job) (cl : Cluster) (s s' : Sys) (hF : InvFifo j cl s)
-    (hs : step f j cl s .endFlushF = some s') : InvFifo j cl s' := by
+theorem sL_step_endFlushF (f : Sem) (j : Job) (cl : Cluster) (s s' : Sys) (hF : InvLive j cl s)
+    (hs : step f j cl s .endFlushF = some s') : InvLive j cl s' := by
   simp only [step] at hs
   split at hs; · cases hs
-  cases hs; exact sF_congr hF rfl (fun _ => rfl) rfl rfl rfl rfl rfl rfl rfl (fun _ _ => Iff.rfl)
+  cases hs; exact sL_congr hF rfl (fun _ _ h => h) rfl rfl rfl rfl rfl rfl rfl rfl (fun _ _ => Iff.rfl)
 
-theorem sF_step_endFlush (f : Sem) (j : Job) (cl : Cluster) (s s' : Sys) (hF : InvFifo j cl s)
-    (hs : step f j cl s .endFlush = some s') : InvFifo j cl s' := by
+theorem sL_step_endFlush (f : Sem) (j : Job) (cl : Cluster) (s s' : Sys) (hF : InvLive j cl s)
+    (hs : step f j cl s .endFlush = some s') : InvLive j cl s' := by
   simp only [step] at hs
   split at hs; · cases hs
-  cases hs; exact sF_congr hF rfl (fun _ => rfl) rfl rfl rfl rfl rfl rfl rfl (fun _ _ => Iff.rfl)
+  cases hs; exact sL_congr hF rfl (fun _ _ h => h) rfl rfl rfl rfl rfl rfl rfl rfl (fun _ _ => Iff.rfl)
 
-theorem sF_step_endNotify (f : Sem) (j : Job) (cl : Cluster) (s s' : Sys) (hF : InvFifo j cl s)
-    (hs : step f j cl s .endNotify = some s') : InvFifo j cl s' := by
+theorem sL_step_endNotify (f : Sem) (j : Job) (cl : Cluster) (s s' : Sys) (hF : InvLive j cl s)
+    (hs : step f j cl s .endNotify = some s') : InvLive j cl s' := by
   simp only [step] at hs
   split at hs; · cases hs
-  cases hs; exact sF_congr hF rfl (fun _ => rfl) rfl rfl rfl rfl rfl rfl rfl (fun _ _ => Iff.rfl)
+  cases hs; exact sL_congr hF rfl (fun _ _ h => h) rfl rfl rfl rfl rfl rfl rfl rfl (fun _ _ => Iff.rfl)
 
 /-! ### assign -/
 
-theorem sF_step_assign (f : Sem) (j : Job) (cl : Cluster) (s s' : Sys) (a : Asg) (hA : InvAll f j cl s)
-    (hF : InvFifo j cl s) (hs : step f j cl s (.assign a) = some s') : InvFifo j cl s' := by
+theorem sL_step_assign (f : Sem) (j : Job) (cl : Cluster) (s s' : Sys) (a : Asg) (hA : InvAll f j cl s)
+    (hF : InvLive j cl s) (hs : step f j cl s (.assign a) = some s') : InvLive j cl s' := by
   simp only [step] at hs
   split at hs; · cases hs
   split at hs
   · cases hs
   · cases hs
-    exact sF_congr hF rfl (fun _ => rfl) rfl rfl rfl rfl rfl rfl rfl (fun _ _ => Iff.rfl)
+    exact sL_congr hF rfl (fun _ _ h => h) rfl rfl rfl rfl rfl rfl rfl rfl (fun _ _ => Iff.rfl)
   · rename_i c2 prep has
     have hctl : s'.ctl = c2 := by cases hs; rfl
     have henv : s'.env = applyCmds j cl s.env (actCmds a prep) := by cases hs; rfl
@@ -130,20 +118,23 @@ theorem sF_step_assign (f : Sem) (j : Job) (cl : Cluster) (s s' : Sys) (a : Asg)
     have hinb : s'.inbox = s.inbox := by cases hs; rfl
     clear hs
     obtain ⟨ho, hd0, hd', hcomp, hidle, hi', hon', hgpu⟩ := once_assignOne j cl s.ctl c2 a prep hA.h1.once has
-    obtain ⟨fa, fd, ftd, ftr, fc⟩ := sF_assignOne_frames j cl s.ctl c2 a prep has
-    obtain ⟨ep, er⟩ := sF_applyCmds_frame j cl (actCmds a prep) s.env
+    obtain ⟨fa, fd, ftd, ftr, fc⟩ := sL_assignOne_frames j cl s.ctl c2 a prep has
+    obtain ⟨ep, er⟩ := sL_applyCmds_frame j cl (actCmds a prep) s.env
     have hfl : ∀ w t, s'.inFlight w t ↔ (s.inFlight w t ∨ (w, t) = (a.worker, a.task)) := by
       intro w t
       simp only [Sys.inFlight, Sys.todoPairs, hctl, hon', htodo, List.map_append, List.map_cons, List.map_nil,
         List.mem_append, List.mem_singleton]
       exact or_assoc.symm
-    have hpo : ∀ t, pendingOuts s' t = pendingOuts s t := sF_po_congr hinb (by rw [henv]; exact ep)
-    refine ⟨?_, ?_, ?_, ?_, ?_, ?_⟩
-    · intro t ht
+    have hev : ∀ w ds, Event.pubW w ds ∈ s.allEv → Event.pubW w ds ∈ s'.allEv :=
+      sL_allEv_congr hinb (by rw [henv]; exact ep)
+    have fp := iP_assignOne_published j cl s.ctl c2 a prep has
+    refine ⟨?_, ?_, ?_, ?_, ?_⟩
+    · intro t ht k hk
       rw [henv, er] at ht
-      rw [hpo t, hctl, fa]
-      exact hF.suffix t ht
-    · intro t ht; rw [hctl, fd] at ht; rw [hctl, fa]; exact hF.done_announced t ht
+      rw [hctl, fp]
+      rcases hF.notice t ht k hk with h | ⟨w, h⟩
+      · exact Or.inl h
+      · exact Or.inr ⟨w, hev _ _ h⟩
     · intro t ht
       rw [hctl, hd'] at ht; rw [hctl, fd]
       by_cases hta : t = a.task
@@ -172,8 +163,8 @@ theorem sF_step_assign (f : Sem) (j : Job) (cl : Cluster) (s s' : Sys) (a : Asg)
 
 /-! ### plan1 -/
 
-theorem sF_step_plan1 (f : Sem) (j : Job) (cl : Cluster) (s s' : Sys) (hF : InvFifo j cl s)
-    (hs : step f j cl s .plan1 = some s') : InvFifo j cl s' := by
+theorem sL_step_plan1 (f : Sem) (j : Job) (cl : Cluster) (s s' : Sys) (hF : InvLive j cl s)
+    (hs : step f j cl s .plan1 = some s') : InvLive j cl s' := by
   simp only [step] at hs
   split at hs; · cases hs
   split at hs
@@ -182,32 +173,32 @@ theorem sF_step_plan1 (f : Sem) (j : Job) (cl : Cluster) (s s' : Sys) (hF : InvF
     split at hs
     · cases hs
     · cases hs
-      exact sF_congr hF rfl (fun _ => rfl) rfl rfl rfl rfl rfl rfl rfl (fun _ _ => Iff.rfl)
+      exact sL_congr hF rfl (fun _ _ h => h) rfl rfl rfl rfl rfl rfl rfl rfl (fun _ _ => Iff.rfl)
     · rename_i c2 hpl
       cases hs
       obtain ⟨f1, f2, f3, f4, f5, f6, f7⟩ := planOne_frames j s.ctl c2 a prep hpl
-      obtain ⟨g1, g2⟩ := sF_planOne_frames j s.ctl c2 a prep hpl
-      refine sF_congr hF rfl (fun _ => rfl) g1 g2 f2 f1 f3 f4 f5 ?_
+      obtain ⟨g1, g2⟩ := sL_planOne_frames j s.ctl c2 a prep hpl
+      refine sL_congr hF rfl (fun _ _ h => h) (iP_planOne_published j s.ctl c2 a prep hpl) g1 g2 f2 f1 f3 f4 f5 ?_
       intro w t
       simp only [Sys.inFlight, Sys.todoPairs, f6, htd, List.map_cons, List.mem_append, List.mem_cons]
       grind
 
 /-! ### flush -/
 
-theorem sF_step_flushF1 (f : Sem) (j : Job) (cl : Cluster) (s s' : Sys) (hF : InvFifo j cl s)
-    (hs : step f j cl s .flushF1 = some s') : InvFifo j cl s' := by
+theorem sL_step_flushF1 (f : Sem) (j : Job) (cl : Cluster) (s s' : Sys) (hF : InvLive j cl s)
+    (hs : step f j cl s .flushF1 = some s') : InvLive j cl s' := by
   simp only [step] at hs
   split at hs; · cases hs
   split at hs
   · cases hs
   · rename_i ds hst rest hq
     cases hs
-    obtain ⟨ep, er⟩ := sF_applyCmd_frame j cl s.env (.fetch ds hst)
-    exact sF_congr hF er (sF_po_congr rfl ep) (by simp) (by simp) (by simp) (by simp) (by simp) (by simp) (by simp)
+    obtain ⟨ep, er⟩ := sL_applyCmd_frame j cl s.env (.fetch ds hst)
+    exact sL_congr hF er (sL_allEv_congr rfl ep) (by simp) (by simp) (by simp) (by simp) (by simp) (by simp) (by simp) (by simp)
       (fun w t => by simp [Sys.inFlight, Sys.todoPairs])
 
-theorem sF_step_flushP1 (f : Sem) (j : Job) (cl : Cluster) (s s' : Sys) (hF : InvFifo j cl s)
-    (hs : step f j cl s .flushP1 = some s') : InvFifo j cl s' := by
+theorem sL_step_flushP1 (f : Sem) (j : Job) (cl : Cluster) (s s' : Sys) (hF : InvLive j cl s)
+    (hs : step f j cl s .flushP1 = some s') : InvLive j cl s' := by
   simp only [step] at hs
   split at hs; · cases hs
   split at hs
@@ -216,11 +207,12 @@ theorem sF_step_flushP1 (f : Sem) (j : Job) (cl : Cluster) (s s' : Sys) (hF : In
     split at hs
     · cases hs
     · cases hs
-      exact sF_congr hF rfl (fun _ => rfl) rfl rfl rfl rfl rfl rfl rfl (fun _ _ => Iff.rfl)
+      exact sL_congr hF rfl (fun _ _ h => h) rfl rfl rfl rfl rfl rfl rfl rfl (fun _ _ => Iff.rfl)
     · rename_i c2 cmds hph
       cases hs
-      obtain ⟨ep, er⟩ := sF_applyCmds_frame j cl cmds s.env
-      refine sF_congr hF er (sF_po_congr rfl ep) ?_ ?_ ?_ ?_ ?_ ?_ ?_ ?_
+      obtain ⟨ep, er⟩ := sL_applyCmds_frame j cl cmds s.env
+      refine sL_congr hF er (sL_allEv_congr rfl ep) ?_ ?_ ?_ ?_ ?_ ?_ ?_ ?_ ?_
+      · simpa using purgeHosts_published _ _ _ _ _ _ hph
       · simpa using purgeHosts_announced _ _ _ _ _ _ hph
       · simpa using purgeHosts_doneC _ _ _ _ _ _ hph
       · simpa using purgeHosts_dispatched _ _ _ _ _ _ hph
@@ -232,12 +224,10 @@ theorem sF_step_flushP1 (f : Sem) (j : Job) (cl : Cluster) (s s' : Sys) (hF : In
         have := purgeHosts_ongoing _ _ _ _ _ _ hph
         simp [Sys.inFlight, Sys.todoPairs, this]
 
-/-! ### recv (FIFO) -/
+/-! ### recv (any sub-multiset of the pending events, in any order) -/
 
-theorem sF_step_recv (f : Sem) (j : Job) (cl : Cluster) (s s' : Sys) (evs : List Event) (hA : InvAll f j cl s)
-    (hF : InvFifo j cl s) (hfifo : ∀ pend, takeEvents s.env.pending evs = some pend →
-      ∀ t, evs.filterMap (noticeOf t) ++ pend.filterMap (noticeOf t) = s.env.pending.filterMap (noticeOf t))
-    (hs : step f j cl s (.recv evs) = some s') : InvFifo j cl s' := by
+theorem sL_step_recv (f : Sem) (j : Job) (cl : Cluster) (s s' : Sys) (evs : List Event) (hA : InvAll f j cl s)
+    (hF : InvLive j cl s) (hs : step f j cl s (.recv evs) = some s') : InvLive j cl s' := by
   simp only [step] at hs
   split at hs; · cases hs
   rename_i hc
@@ -248,29 +238,19 @@ theorem sF_step_recv (f : Sem) (j : Job) (cl : Cluster) (s s' : Sys) (evs : List
   · cases hs
   · rename_i pend htk
     cases hs
-    have hall := hfifo pend htk
-    obtain ⟨m1, m2⟩ := sF_markDelivered_frame evs { s.env with pending := pend }
-    refine sF_congr hF m2 ?_ rfl rfl rfl rfl rfl rfl rfl (fun _ _ => Iff.rfl)
-    intro t
-    rw [sF_po, sF_po]
-    simp only [m1, hinb, List.filterMap_nil, List.nil_append]
-    rw [← sF_sel_noticeOf]; exact hall t
-
-/-- the global discipline (a batch is a prefix of ALL pending events) is a special case of per-producer FIFO -/
-theorem fifoStep_of_prefix (x : SysX) (evs : List Event) (h : evs = x.sys.env.pending.take evs.length) :
-    fifoStep x (.base (.recv evs)) := by
-  intro pend htk t
-  have h1 := sF_takeEvents_prefix evs.length x.sys.env.pending
-  rw [← h, htk] at h1
-  have h2 : pend = x.sys.env.pending.drop evs.length := Option.some.inj h1
-  rw [h2, ← List.filterMap_append]
-  conv => lhs; arg 2; arg 1; rw [h]
-  rw [List.take_append_drop]
+    obtain ⟨m1, m2⟩ := sL_markDelivered_frame evs { s.env with pending := pend }
+    refine sL_congr hF m2 ?_ rfl rfl rfl rfl rfl rfl rfl rfl (fun _ _ => Iff.rfl)
+    intro w ds he
+    have he' : Event.pubW w ds ∈ s.env.pending := by simpa [Sys.allEv, hinb] using he
+    have hc := i2b_takeEvents_count evs s.env.pending pend htk (Event.pubW w ds)
+    have := List.count_pos_iff.mpr he'
+    have h3 : Event.pubW w ds ∈ evs ++ pend := List.count_pos_iff.mp (by omega)
+    simpa [Sys.allEv, m1] using h3
 
 /-! ### environment steps -/
 
-theorem sF_envStep_io (f : Sem) (j : Job) (e e' : Env) (i : Nat) (h : envStep f j e (.io i) = some e') :
-    e'.ran = e.ran ∧ ∀ t, e'.pending.filterMap (sF_sel t) = e.pending.filterMap (sF_sel t) := by
+theorem sL_envStep_io (f : Sem) (j : Job) (e e' : Env) (i : Nat) (h : envStep f j e (.io i) = some e') :
+    e'.ran = e.ran ∧ ∀ ev, ev ∈ e.pending → ev ∈ e'.pending := by
   simp only [envStep] at h
   split at h
   · cases h
@@ -279,30 +259,20 @@ theorem sF_envStep_io (f : Sem) (j : Job) (e e' : Env) (i : Nat) (h : envStep f 
     | transmit ds src tgt =>
       dsimp only at h
       split at h
-      · cases h; exact ⟨by simp, fun t => by simp⟩
+      · cases h; exact ⟨by simp [Env.flag], fun ev hm => by simpa [Env.flag] using hm⟩
       · split at h
-        · cases h; exact ⟨rfl, fun t => rfl⟩
+        · cases h; exact ⟨rfl, fun ev hm => hm⟩
         · cases h
-          refine ⟨rfl, fun t => ?_⟩
-          simp [List.filterMap_append, sF_sel]
+          exact ⟨rfl, fun ev hm => List.mem_append.mpr (Or.inl hm)⟩
     | fetch ds src =>
       dsimp only at h
       split at h
-      · cases h; exact ⟨by simp, fun t => by simp⟩
+      · cases h; exact ⟨by simp [Env.flag], fun ev hm => by simpa [Env.flag] using hm⟩
       · cases h
-        refine ⟨rfl, fun t => ?_⟩
-        simp [List.filterMap_append, sF_sel]
+        exact ⟨rfl, fun ev hm => List.mem_append.mpr (Or.inl hm)⟩
 
-theorem sF_run_po (f : Sem) (j : Job) (w : Worker) (t : Task) (args : List Val) (s : Sys) (e0 : Env)
-    (hp : e0.pending = s.env.pending) (t' : Task) :
-    pendingOuts { s with env := publishOutputs f j w t args e0 } t' =
-      pendingOuts s t' ++ (if t = t' then List.range (j.nOut t) else []) := by
-  rw [sF_po, sF_po]
-  simp only [(publishOutputs_frame f j w t args e0).2.2.2.2.2.2.2, hp, List.filterMap_append, sF_sel_outputs,
-    List.append_assoc]
-
-theorem sF_step_env (f : Sem) (j : Job) (cl : Cluster) (s s' : Sys) (es : EnvStep) (hA : InvAll f j cl s)
-    (hF : InvFifo j cl s) (hs : step f j cl s (.env es) = some s') : InvFifo j cl s' := by
+theorem sL_step_env (f : Sem) (j : Job) (cl : Cluster) (s s' : Sys) (es : EnvStep) (_hA : InvAll f j cl s)
+    (hF : InvLive j cl s) (hs : step f j cl s (.env es) = some s') : InvLive j cl s' := by
   simp only [step] at hs
   split at hs; · cases hs
   cases he : envStep f j s.env es with
@@ -312,11 +282,13 @@ theorem sF_step_env (f : Sem) (j : Job) (cl : Cluster) (s s' : Sys) (es : EnvSte
     subst hs
     cases es with
     | io i =>
-      obtain ⟨h1, h2⟩ := sF_envStep_io f j s.env e' i he
-      refine sF_congr hF h1 ?_ rfl rfl rfl rfl rfl rfl rfl (fun _ _ => Iff.rfl)
-      intro t
-      rw [sF_po, sF_po]
-      simp only [h2]
+      obtain ⟨h1, h2⟩ := sL_envStep_io f j s.env e' i he
+      refine sL_congr hF h1 ?_ rfl rfl rfl rfl rfl rfl rfl rfl (fun _ _ => Iff.rfl)
+      intro w ds hm
+      simp only [Sys.allEv, List.mem_append] at hm ⊢
+      rcases hm with hm | hm
+      · exact Or.inl hm
+      · exact Or.inr (h2 _ hm)
     | run w t =>
       simp only [envStep] at he
       split at he
@@ -325,38 +297,38 @@ theorem sF_step_env (f : Sem) (j : Job) (cl : Cluster) (s s' : Sys) (es : EnvSte
         obtain ⟨_, _, _, _, h5, _, _, h8⟩ := publishOutputs_frame f j w t
           ((j.inputs t).map (fun d => (s.env.present w.host d).getD ""))
           { s.env with queued := s.env.queued.erase (w, t), ran := upd s.env.ran t true }
-        have hq : (w, t) ∈ s.env.queued := by
-          simp only [Bool.and_eq_true, List.contains_iff_mem] at hc; exact hc.1
-        have hnr : s.env.ran t = false := hA.h2.queued_not_ran w t hq
-        refine ⟨?_, hF.done_announced, hF.disp_flight_or_done, hF.undisp, hF.tracker_sound, hF.workers_cover⟩
-        intro t' ht'
+        refine ⟨?_, hF.disp_flight_or_done, hF.undisp, hF.tracker_sound, hF.workers_cover⟩
+        intro t' ht' k hk
         simp only [h5] at ht'
-        have hpo' := sF_run_po f j w t ((j.inputs t).map (fun d => (s.env.present w.host d).getD "")) s
-          { s.env with queued := s.env.queued.erase (w, t), ran := upd s.env.ran t true } rfl t'
-        rw [hpo']
+        simp only [Sys.allEv, h8]
         by_cases htt : t' = t
         · subst htt
-          refine ⟨0, Nat.zero_le _, ?_, fun k hk => absurd hk (Nat.not_lt_zero k)⟩
-          rw [sF_po_nil hA.h2 t' hnr]
-          simp
+          right
+          refine ⟨w, List.mem_append.mpr (Or.inr (List.mem_append.mpr (Or.inr ?_)))⟩
+          simp only [Job.outputsOf, List.mem_map, List.mem_range]
+          exact ⟨⟨t', k⟩, ⟨k, hk, rfl⟩, rfl⟩
         · rw [upd_other _ _ _ _ htt] at ht'
-          obtain ⟨m, hm, hpm, hann⟩ := hF.suffix t' ht'
-          refine ⟨m, hm, ?_, hann⟩
-          rw [if_neg (Ne.symm htt), List.append_nil]
-          exact hpm
+          rcases hF.notice t' ht' k hk with h | ⟨w', h⟩
+          · exact Or.inl h
+          · right
+            refine ⟨w', ?_⟩
+            simp only [Sys.allEv, List.mem_append] at h ⊢
+            rcases h with h | h
+            · exact Or.inl h
+            · exact Or.inr (Or.inl h)
       · cases he
 
 /-! ### notify1 -/
 
-theorem sF_idle_sub (idle : List Worker) (w x : Worker) (b : Bool) (h : x ∈ idle) :
+theorem sL_idle_sub (idle : List Worker) (w x : Worker) (b : Bool) (h : x ∈ idle) :
     x ∈ (if b = true then idle else idle ++ [w]) := by
   split
   · exact h
   · exact List.mem_append.mpr (Or.inl h)
 
-theorem sF_step_notify1 (f : Sem) (j : Job) (cl : Cluster) (s s' : Sys) (hA : InvAll f j cl s)
-    (hA' : InvAll f j cl s') (hF : InvFifo j cl s) (hX : InvFifoX s)
-    (hs : step f j cl s .notify1 = some s') : InvFifo j cl s' := by
+theorem sL_step_notify1 (f : Sem) (j : Job) (cl : Cluster) (s s' : Sys) (hA : InvAll f j cl s)
+    (hA' : InvAll f j cl s') (hF : InvLive j cl s) (hX : InvLiveX s)
+    (hs : step f j cl s .notify1 = some s') : InvLive j cl s' := by
   simp only [step] at hs
   split at hs; · cases hs
   rename_i hc
@@ -380,74 +352,49 @@ theorem sF_step_notify1 (f : Sem) (j : Job) (cl : Cluster) (s s' : Sys) (hA : In
     have htodo' : s'.todo = [] := by cases hs; exact htodo
     have hinb : s'.inbox = rest := by cases hs; rfl
     clear hs
-    obtain ⟨t1, t2, t3, t4⟩ := sF_notifyEvent_track j s.ctl c2 ev hne
+    obtain ⟨t1, t2, t3, t4⟩ := sL_notifyEvent_track j s.ctl c2 ev hne
     obtain ⟨hdisp, _⟩ := notifyEvent_workers j s.ctl c2 ev hne
-    have hdone := sF_notifyEvent_done j s.ctl c2 ev hne
+    have hdone := sL_notifyEvent_done j s.ctl c2 ev hne
     have hfl0 : ∀ w t, s.inFlight w t ↔ (w, t) ∈ s.ctl.ongoing := by
       intro w t; simp [Sys.inFlight, Sys.todoPairs, htodo]
     have hfl1 : ∀ w t, s'.inFlight w t ↔ (w, t) ∈ c2.ongoing := by
       intro w t; simp [Sys.inFlight, Sys.todoPairs, htodo', hctl]
-    have hpo_none : ∀ t, sF_sel t ev = none → pendingOuts s' t = pendingOuts s t := by
-      intro t h
-      rw [sF_po, sF_po, hib, hinb, henv, List.filterMap_cons, h]
-    have hpo_some : ∀ t k, sF_sel t ev = some k → pendingOuts s t = k :: pendingOuts s' t := by
-      intro t k h
-      rw [sF_po, sF_po, hib, hinb, henv, List.filterMap_cons, h]
-      rfl
-    -- the head notice of a task is the first of its outstanding ones
-    have hhead : ∀ w ds, ev = Event.pubW w ds → ds.out < j.nOut ds.task ∧
-        (∀ k, k < ds.out → s.ctl.announced ⟨ds.task, k⟩ = true) ∧
-        pendingOuts s' ds.task = (List.range (j.nOut ds.task)).drop (ds.out + 1) := by
-      intro w ds hev
-      have hmem : Event.pubW w ds ∈ s.allEv := by simp [Sys.allEv, hib, hev]
-      have hran := (hA.h2.ev_ran w ds hmem).1
-      obtain ⟨m, hm, hpm, hann⟩ := hF.suffix ds.task hran
-      rw [hpo_some ds.task ds.out (by rw [hev]; exact sF_sel_pubW_same w ds)] at hpm
-      obtain ⟨e1, e2, e3⟩ := sF_drop_range_cons _ _ _ _ hpm.symm
-      subst e1
-      exact ⟨e2, hann, e3⟩
     have hmono : ∀ d, s.ctl.announced d = true → c2.announced d = true := fun d h => (t4 d).mpr (Or.inl h)
-    refine ⟨?_, ?_, ?_, ?_, ?_, ?_⟩
-    · -- suffix
-      intro t ht
+    -- the record only grows, and it grows by the dataset of the worker's notice being processed
+    have hpubmono : (∀ d, s.ctl.published d = true → c2.published d = true) ∧
+        (∀ w ds, ev = Event.pubW w ds → c2.published ds = true) := by
+      by_cases hW : ∃ w ds, ev = .pubW w ds
+      · obtain ⟨w, ds, rfl⟩ := hW
+        obtain ⟨p1, _, _⟩ := notifyEvent_pubW_spec j s.ctl c2 w ds hne
+        refine ⟨?_, ?_⟩
+        · intro d hd; rw [p1]
+          by_cases hx : d = ds
+          · subst hx; simp
+          · rw [upd_other _ _ _ _ hx]; exact hd
+        · intro w' ds' he
+          simp only [Event.pubW.injEq] at he
+          obtain ⟨_, rfl⟩ := he
+          rw [p1]; simp
+      · have hne' : ∀ w ds, ev ≠ .pubW w ds := fun w ds h => hW ⟨w, ds, h⟩
+        obtain ⟨q1, _, _⟩ := notifyEvent_other_spec j s.ctl c2 ev hne' hne
+        exact ⟨fun d hd => by rw [q1]; exact hd, fun w ds he => absurd he (hne' w ds)⟩
+    refine ⟨?_, ?_, ?_, ?_, ?_⟩
+    · -- notice
+      intro t ht k hk
       rw [henv] at ht
       rw [hctl]
-      cases hsel : sF_sel t ev with
-      | none =>
-        obtain ⟨m, hm, hpm, hann⟩ := hF.suffix t ht
-        exact ⟨m, hm, by rw [hpo_none t hsel]; exact hpm, fun k hk => hmono _ (hann k hk)⟩
-      | some k =>
-        obtain ⟨w, hev⟩ := (sF_sel_some t ev k).mp hsel
-        obtain ⟨h1, h2, h3⟩ := hhead w ⟨t, k⟩ hev
-        refine ⟨k + 1, h1, h3, ?_⟩
-        intro k' hk'
-        by_cases hlt : k' < k
-        · exact hmono _ (h2 k' hlt)
-        · have : k' = k := by omega
-          subst this
-          exact (t4 _).mpr (Or.inr (by rw [hev]; rfl))
-    · -- done_announced
-      intro t ht k hk
-      rw [hctl] at ht ⊢
-      rcases hdone with ⟨hd, _, _⟩ | ⟨w, ds, hev, hlast, hd, _⟩
-      · rw [hd] at ht; exact hmono _ (hF.done_announced t ht k hk)
-      · rw [hd] at ht
-        by_cases htt : t = ds.task
-        · obtain ⟨h1, h2, _⟩ := hhead w ds hev
-          have hl : ds.out + 1 = j.nOut ds.task := by simpa [Job.isLast] using hlast
-          subst htt
-          by_cases hk' : k < ds.out
-          · exact hmono _ (h2 k hk')
-          · have : k = ds.out := by omega
-            subst this
-            exact (t4 _).mpr (Or.inr (by rw [hev]; rfl))
-        · rw [upd_other _ _ _ _ htt] at ht
-          exact hmono _ (hF.done_announced t ht k hk)
+      rcases hF.notice t ht k hk with h | ⟨w, h⟩
+      · exact Or.inl (hpubmono.1 _ h)
+      · simp only [Sys.allEv, hib, List.cons_append, List.mem_cons] at h
+        rcases h with h | h
+        · exact Or.inl (hpubmono.2 w ⟨t, k⟩ h.symm)
+        · right; refine ⟨w, ?_⟩
+          simpa [Sys.allEv, hinb, henv] using h
     · -- disp_flight_or_done
       intro t ht
       rw [hctl, hdisp] at ht
       rw [hctl]
-      rcases hdone with ⟨hd, _, hon⟩ | ⟨w, ds, hev, hlast, hd, hmem, hon, hi⟩
+      rcases hdone with ⟨hd, _, hon⟩ | ⟨w, ds, hev, _, hd, hmem, hon, hi⟩
       · rcases hF.disp_flight_or_done t ht with ⟨w', hw'⟩ | hd0
         · exact Or.inl ⟨w', (hfl1 _ _).mpr (by rw [hon]; exact (hfl0 _ _).mp hw')⟩
         · exact Or.inr (by rw [hd]; exact hd0)
@@ -493,7 +440,7 @@ theorem sF_step_notify1 (f : Sem) (j : Job) (cl : Cluster) (s s' : Sys) (hA : In
     · -- workers_cover
       intro w0 hw0
       rw [hctl]
-      rcases hdone with ⟨_, hi, hon⟩ | ⟨w, ds, hev, hlast, hd, hmem, hon, hi⟩
+      rcases hdone with ⟨_, hi, hon⟩ | ⟨w, ds, hev, _, hd, hmem, hon, hi⟩
       · rcases hF.workers_cover w0 hw0 with h | ⟨t0, h⟩
         · exact Or.inl (by rw [hi]; exact h)
         · exact Or.inr ⟨t0, (hfl1 _ _).mpr (by rw [hon]; exact (hfl0 _ _).mp h)⟩
@@ -511,7 +458,7 @@ theorem sF_step_notify1 (f : Sem) (j : Job) (cl : Cluster) (s s' : Sys) (hA : In
           · rw [hi, if_neg hcond]
             exact Or.inl (by simp)
         · rcases hF.workers_cover w0 hw0 with h | ⟨t0, h⟩
-          · exact Or.inl (by rw [hi]; exact sF_idle_sub _ _ _ _ h)
+          · exact Or.inl (by rw [hi]; exact sL_idle_sub _ _ _ _ h)
           · refine Or.inr ⟨t0, (hfl1 _ _).mpr ?_⟩
             rw [hon]
             have hne2 : (w0, t0) ≠ (w, ds.task) := by
@@ -520,31 +467,29 @@ theorem sF_step_notify1 (f : Sem) (j : Job) (cl : Cluster) (s s' : Sys) (hA : In
 
 /-! ### all base steps -/
 
-theorem sF_step (f : Sem) (j : Job) (cl : Cluster) (s s' : Sys) (st : Step) (wf : WF j cl)
-    (hA : InvAll f j cl s) (hF : InvFifo j cl s) (hX : InvFifoX s)
-    (hfifo : ∀ evs, st = .recv evs → ∀ pend, takeEvents s.env.pending evs = some pend →
-      ∀ t, evs.filterMap (noticeOf t) ++ pend.filterMap (noticeOf t) = s.env.pending.filterMap (noticeOf t))
-    (hs : step f j cl s st = some s') : InvFifo j cl s' := by
+theorem sL_step (f : Sem) (j : Job) (cl : Cluster) (s s' : Sys) (st : Step) (wf : WF j cl)
+    (hA : InvAll f j cl s) (hF : InvLive j cl s) (hX : InvLiveX s)
+    (hs : step f j cl s st = some s') : InvLive j cl s' := by
   have hA' : InvAll f j cl s' := invAll_step f j cl s s' st wf hA hs
   cases st with
-  | enter => exact sF_step_enter f j cl s s' hA hF hs
-  | assign a => exact sF_step_assign f j cl s s' a hA hF hs
-  | endAssign => exact sF_step_endAssign f j cl s s' hF hs
-  | plan1 => exact sF_step_plan1 f j cl s s' hF hs
-  | endPlan => exact sF_step_endPlan f j cl s s' hF hs
-  | flushF1 => exact sF_step_flushF1 f j cl s s' hF hs
-  | endFlushF => exact sF_step_endFlushF f j cl s s' hF hs
-  | flushP1 => exact sF_step_flushP1 f j cl s s' hF hs
-  | endFlush => exact sF_step_endFlush f j cl s s' hF hs
-  | recv evs => exact sF_step_recv f j cl s s' evs hA hF (hfifo evs rfl) hs
-  | notify1 => exact sF_step_notify1 f j cl s s' hA hA' hF hX hs
-  | endNotify => exact sF_step_endNotify f j cl s s' hF hs
-  | env es => exact sF_step_env f j cl s s' es hA hF hs
+  | enter => exact sL_step_enter f j cl s s' hA hF hs
+  | assign a => exact sL_step_assign f j cl s s' a hA hF hs
+  | endAssign => exact sL_step_endAssign f j cl s s' hF hs
+  | plan1 => exact sL_step_plan1 f j cl s s' hF hs
+  | endPlan => exact sL_step_endPlan f j cl s s' hF hs
+  | flushF1 => exact sL_step_flushF1 f j cl s s' hF hs
+  | endFlushF => exact sL_step_endFlushF f j cl s s' hF hs
+  | flushP1 => exact sL_step_flushP1 f j cl s s' hF hs
+  | endFlush => exact sL_step_endFlush f j cl s s' hF hs
+  | recv evs => exact sL_step_recv f j cl s s' evs hA hF hs
+  | notify1 => exact sL_step_notify1 f j cl s s' hA hA' hF hX hs
+  | endNotify => exact sL_step_endNotify f j cl s s' hF hs
+  | env es => exact sL_step_env f j cl s s' es hA hF hs
 
 /-- the auxiliary conjunct (trackers have no duplicates) is preserved by every base step -/
-theorem sF_x_step (f : Sem) (j : Job) (cl : Cluster) (s s' : Sys) (st : Step) (hX : InvFifoX s)
-    (hs : step f j cl s st = some s') : InvFifoX s' := by
-  have key : (∀ t, (s.ctl.tracker t).Nodup → (s'.ctl.tracker t).Nodup) → InvFifoX s' :=
+theorem sL_x_step (f : Sem) (j : Job) (cl : Cluster) (s s' : Sys) (st : Step) (hX : InvLiveX s)
+    (hs : step f j cl s st = some s') : InvLiveX s' := by
+  have key : (∀ t, (s.ctl.tracker t).Nodup → (s'.ctl.tracker t).Nodup) → InvLiveX s' :=
     fun h => ⟨fun t => h t (hX.tracker_nodup t)⟩
   apply key
   cases st with
@@ -560,7 +505,7 @@ theorem sF_x_step (f : Sem) (j : Job) (cl : Cluster) (s s' : Sys) (st : Step) (h
     · cases hs; exact fun t h => h
     · rename_i c2 prep has
       cases hs
-      obtain ⟨_, _, _, ftr, _⟩ := sF_assignOne_frames j cl s.ctl c2 a prep has
+      obtain ⟨_, _, _, ftr, _⟩ := sL_assignOne_frames j cl s.ctl c2 a prep has
       intro t h; simp only [ftr]; exact h
   | endAssign =>
     simp only [step] at hs
@@ -624,7 +569,7 @@ theorem sF_x_step (f : Sem) (j : Job) (cl : Cluster) (s s' : Sys) (st : Step) (h
       · cases hs; exact fun t h => h
       · rename_i c2 hne
         cases hs
-        exact (sF_notifyEvent_track j s.ctl c2 _ hne).1
+        exact (sL_notifyEvent_track j s.ctl c2 _ hne).1
   | endNotify =>
     simp only [step] at hs
     split at hs; · cases hs
